@@ -11,10 +11,8 @@ THEOREMS = [
     "GoaktVerif.C12.cinv_reachable",
     "GoaktVerif.C12.C12_guards",
     "GoaktVerif.C12.C12_decision_after_deadline",
-    "GoaktVerif.C12.C12_count_threshold_wrapped",
     "GoaktVerif.C12.C12_count_threshold",
-    "GoaktVerif.C12.witnessOverflow_event",
-    "GoaktVerif.C12.C12_count_refuted",
+    "GoaktVerif.C12.witnessOverflow_quiet",
     "GoaktVerif.C12.finv_reachable",
     "GoaktVerif.C12.decision_fresh",
     "GoaktVerif.C12.C12_time_decision",
@@ -35,7 +33,7 @@ GO2LEAN = {"targets": [
 INPKG = ["actor/zz_verif_c12.go"]
 TIMEOUT = 900
 MANIFEST = {
-    "level_text": "Kernel-checked theorems over an executable model of passivationManager (incl. Go's container/heap and the entry.index bookkeeping), the PID side (markActivity coalescing, tryPassivation guards in the code's order, pause/resume/suspend/reinstate/Shutdown) and the manager's unlock window, for ALL operation sequences and clock values: every timer-path attempt happens at or after the entry's deadline AND — when it concerns the actor's current, unpaused, time-based entry — at now >= lastActivity + T - 100ms (C12_time_decision, from the invariant finv_reachable: heap array and entry.index in sync through container/heap, paused entries off the heap, lastTouch <= latest <= now, every on-heap deadline >= lastTouch + T and > latest + T - touchInterval, through Register/Pause/Resume/Touch and the coalescing CAS), a successful tryPassivation saw none of long-lived / system-stopping / skip-next / stopping / suspended / paused, the message-count trigger is raised only at or above baseline+N — in int64: the true threshold whenever the sum fits (C12_count_threshold), refuted for MaxMessages near MaxInt64 (finding C12-F4, witnessOverflow_event) — and every count-path attempt goes back to such a crossing of the same entry object (log_sound, C12_guards, C12_decision_after_deadline, C12_count_threshold, C12_count); PostStop runs at most once per actor in EVERY run (C12_once: no stop ever reaches a stopped actor, no_dead_stops + invO_reachable — true since fix 6f92e10, which this check found); a passivated actor is not running and its PostStop ran (C12_stopped); all combined in C12_partial. The full statement is still REFUTED by the literal time clause and by the int64 overflow of the count threshold (C12-F4, proposed fix) (C12_refuted / C12_time_refuted: a message handled inside the manager's unlock window, finding C12-F2, witness replayed on the real code); two defects found by this check were fixed in /repo (6f92e10 PostStop twice, 8134435 duplicate heap entry / manager panic) and the model follows the fixed code. The model is tied to /repo by a differential run of the real passivationManager and real actors of a real actor system against the model's step function (every op's result and the complete manager/PID state after every op), and the 100ms constant is regenerated from actor/pid.go.",
+    "level_text": "Kernel-checked theorems over an executable model of passivationManager (incl. Go's container/heap and the entry.index bookkeeping), the PID side (markActivity coalescing, tryPassivation guards in the code's order, pause/resume/suspend/reinstate/Shutdown) and the manager's unlock window, for ALL operation sequences and clock values: every timer-path attempt happens at or after the entry's deadline AND — when it concerns the actor's current, unpaused, time-based entry — at now >= lastActivity + T - 100ms (C12_time_decision, from the invariant finv_reachable: heap array and entry.index in sync through container/heap, paused entries off the heap, lastTouch <= latest <= now, every on-heap deadline >= lastTouch + T and > latest + T - touchInterval, through Register/Pause/Resume/Touch and the coalescing CAS), a successful tryPassivation saw none of long-lived / system-stopping / skip-next / stopping / suspended / paused, the message-count trigger is raised only at or above baseline+N for every MaxMessages (C12_count_threshold; true since fix 5123092 — the int64 sum used to overflow, found with this check) and every count-path attempt goes back to such a crossing of the same entry object (log_sound, C12_guards, C12_decision_after_deadline, C12_count_threshold, C12_count); PostStop runs at most once per actor in EVERY run (C12_once: no stop ever reaches a stopped actor, no_dead_stops + invO_reachable — true since fix 6f92e10, which this check found); a passivated actor is not running and its PostStop ran (C12_stopped); all combined in C12_partial. The full statement is still REFUTED by the literal time clause (C12_refuted / C12_time_refuted: a message handled inside the manager's unlock window, finding C12-F2, witness replayed on the real code); three defects found by this check were fixed in /repo (6f92e10 PostStop twice, 8134435 duplicate heap entry / manager panic, 5123092 count-threshold overflow) and the model follows the fixed code. The model is tied to /repo by a differential run of the real passivationManager and real actors of a real actor system against the model's step function (every op's result and the complete manager/PID state after every op), and the 100ms constant is regenerated from actor/pid.go.",
     "level_note": "Partial: the literal time clause is false of the current code (finding C12-F2, check-then-act between manager and actor). Timing is a virtual clock: the real manager reads time.Now, the harness shifts all stored timestamps instead (no claim about timer lateness, goroutine scheduling of run(), or the select between timer and message triggers beyond 'any order of tick/drain ops'). The unlock window is modelled by whole operations of other goroutines completing inside it; finer interleavings inside tryPassivation/Shutdown (stopLocker) and the markActivity CAS under concurrent callers are not modelled. Restart/re-spawn of a stopped actor is not modelled. Grain passivation (grainPID) is out of scope.",
     "technique": "Lean 4 proof (inductive invariants over all op sequences) on a hand-written model tied by a model/implementation differential on a virtual clock",
 }
